@@ -645,6 +645,13 @@ impl OcflRepo {
                     src_path, src_version_num, dst_path
                 );
 
+                if src_version_num == inventory.head && src_path.as_ref() == &dst_path {
+                    return Err(RocflError::IllegalState(format!(
+                        "Source and destination are the same path {}",
+                        dst_path
+                    )));
+                }
+
                 let digest_and_path =
                     lookup_staged_digest_and_content_path(&inventory, src_version_num, &src_path)?;
 
@@ -736,6 +743,13 @@ impl OcflRepo {
             info!("Moving {} to {}", src_path, dst_path);
 
             let attempt = || -> Result<()> {
+                if src_path.as_ref() == &dst_path {
+                    return Err(RocflError::IllegalState(format!(
+                        "Source and destination are the same path {}",
+                        dst_path
+                    )));
+                }
+
                 let digest_and_path =
                     lookup_staged_digest_and_content_path(&inventory, inventory.head, &src_path)?;
 
